@@ -2,6 +2,7 @@ package walletsim
 
 import (
 	"encoding/hex"
+	"errors"
 	"fmt"
 	"os"
 	"path/filepath"
@@ -18,6 +19,7 @@ import (
 	"github.com/btcsuite/btcwallet/walletdb"
 
 	"verifsim/core"
+	"verifsim/faultdb"
 	"verifsim/simrt"
 )
 
@@ -75,6 +77,24 @@ var importVariants = []struct {
 	{waddrmgr.HDVersionMainNetBIP0049, waddrmgr.WitnessPubKey, waddrmgr.KeyScopeBIP0049Plus, waddrmgr.NestedWitnessPubKey, waddrmgr.WitnessPubKey},
 	{waddrmgr.HDVersionMainNetBIP0084, waddrmgr.WitnessPubKey, waddrmgr.KeyScopeBIP0084, waddrmgr.WitnessPubKey, waddrmgr.WitnessPubKey},
 	{waddrmgr.HDVersionMainNetBIP0084, waddrmgr.TaprootPubKey, waddrmgr.KeyScopeBIP0086, waddrmgr.TaprootPubKey, waddrmgr.TaprootPubKey},
+}
+
+// genAcctWFaults is genAcctW with an injected database fault (the k-th
+// mutating call, or the commit) placed in front of account operations.
+func genAcctWFaults(r *core.Rand, p *core.Plan) {
+	genAcctW(r, p)
+	var out []core.Op
+	for _, op := range p.Ops {
+		switch op.K {
+		case "importdry2", "importacct", "newaddri", "newaddr", "newacct":
+			if r.Chance(1, 3) {
+				kind := int64(r.Intn(3) / 2) // 0,0,1: mostly write failures
+				out = append(out, core.Op{K: "faultnext", A: []int64{kind, int64(r.Range(1, 30))}})
+			}
+		}
+		out = append(out, op)
+	}
+	p.Ops = out
 }
 
 func genAcctW(r *core.Rand, p *core.Plan) {
@@ -240,6 +260,14 @@ func (rs *runState) importdry2(step int, op core.Op) {
 	if err != nil {
 		return
 	}
+	if props.AccountName != fmt.Sprintf("preview-%d", rs.previews) || props.AccountPubKey == nil || props.AccountPubKey.String() != xpub.String() {
+		got := "nil"
+		if props.AccountPubKey != nil {
+			got = props.AccountPubKey.String()
+		}
+		x.fail("c03w:preview-properties-wrong", "ImportAccountDryRun(preview-%d, key %s) reports account %d name %q key %s", rs.previews, xpub, props.AccountNumber, props.AccountName, got)
+		return
+	}
 	x.env.Count("probe.account-import-preview")
 	if x.w.Locked() {
 		x.env.Count("probe.preview-while-locked")
@@ -295,6 +323,9 @@ func (rs *runState) importacct(step int, op core.Op) {
 	x.env.Eff()
 	x.env.Logf("%d importacct variant=%d name=%s err=%v", step, v, name, err)
 	if err != nil {
+		if injected(err) {
+			return
+		}
 		x.fail("c08w:import-failed", "ImportAccount(%s, variant %d, scope %v) failed without any injected fault: %v", name, v, iv.scope, err)
 		return
 	}
@@ -347,6 +378,9 @@ func (rs *runState) newaddri(step int, op core.Op) {
 	x.env.Eff()
 	x.env.Logf("%d newaddri imp=%d branch=%d -> %v err=%v", step, k, branch, addr, err)
 	if err != nil {
+		if injected(err) {
+			return
+		}
 		x.fail("c03w:imported-issue-failed", "issuing branch %d of imported account %d (scope %v) failed without any injected fault: %v", branch, ia.number, ia.scope, err)
 		return
 	}
@@ -738,5 +772,55 @@ func (rs *runState) observe(step int, op core.Op) {
 		x.checkImportedIssue(t.imp, branch, got, "issued (observer)")
 	} else if _, ok := x.record(got, t.scope, t.account, "observer"); !ok {
 		x.fail("address-not-seed-child:observer", "the wallet issued %s which is not child <400 of the seed on scope %v account %d", got, t.scope, t.account)
+	}
+}
+
+func injected(err error) bool {
+	return errors.Is(err, faultdb.ErrInjected) || errors.Is(err, faultdb.ErrInjectedCommit)
+}
+
+// faultnext arms a database fault for the operation that follows.
+func (rs *runState) faultnext(step int, op core.Op) {
+	x := rs.x
+	if !x.running {
+		return
+	}
+	x.db.Reset()
+	if op.Arg(0)%2 == 1 {
+		x.db.FailCommit = true
+	} else {
+		k := int(op.Arg(1))
+		if k < 1 {
+			k = 1
+		}
+		x.db.Arm(k)
+	}
+	rs.faultArmed = true
+}
+
+// afterFault runs after the operation that followed a faultnext. If the fault
+// fired, the failed operation must have left no trace: the running wallet
+// answers as a manager opened on the database does, and a preview of a fresh
+// key shows that key. Whatever fails from here on in this run is attributed
+// to the failed operation.
+func (rs *runState) afterFault(step int, opKind string) {
+	x := rs.x
+	fired, kind := x.db.Fired > 0, x.db.LastKind
+	x.db.Reset()
+	rs.faultArmed = false
+	if !fired || x.violated || !x.running {
+		return
+	}
+	x.env.Count("fault.db." + map[bool]string{true: "commit", false: "write"}[kind == "commit"])
+	x.env.Count("probe.fault-fired-in:" + opKind)
+	x.relabel = "c10w:after-failed-op:"
+	rs.observe(step, core.Op{K: "observe", A: []int64{int64(step), int64(step / 2)}})
+	if x.violated {
+		return
+	}
+	for v := range importVariants {
+		if (step+v)%3 == 0 {
+			rs.importdry2(step, core.Op{K: "importdry2", A: []int64{int64(v), 1, int64(20 + step%5)}})
+		}
 	}
 }
